@@ -76,7 +76,11 @@ def gen_dyn_directives(rng):
             if k < 0.5: fs = []
             elif k < 0.8: fs = ['id']
             else: fs = ['id', 'ok']
-            fields = '+'.join((f + '=' + _gen_val(rng, f)) if rng.random() < 0.7 and _gen_val(rng, f) != 'seven' else f for f in fs) or '-'
+            def fld(f):
+                v = _gen_val(rng, f)
+                # (a non-numeric, non-boolean matcher would be a regex / Debug pattern: not modelled, not generated)
+                return f + '=' + v if (rng.random() < 0.7 and v != 'seven') else f
+            fields = '+'.join(fld(f) for f in fs) or '-'
             if span == '-' and fields == '-': span = 'req'
             ds.append((tgt, span, fields, lvl))
     return ds
